@@ -437,7 +437,8 @@ def verdict(code: bytes, state: Optional[Dict[str, Any]], recheck: bool = False,
                     diffs, details = compare_behaviour(sa, sb, state)
                     if diffs:
                         opc = code[1] if code[0] in G.PRE_OPCODES else code[0]
-                        out.append(Violation("behaviour", f"{where} [opcode {opc:02X}]", "differs: " + ",".join(diffs), saved,
+                        opc2 = b1[1] if (b1 and b1[0] in G.PRE_OPCODES and len(b1) > 1) else (b1[0] if b1 else 0)
+                        out.append(Violation("behaviour", f"{where} [opcode {opc:02X}->{opc2:02X}]", "differs: " + ",".join(diffs), saved,
                                              f"{code.hex()} vs {b1.hex()} ('{text}'): " + "; ".join(details)))
     if not out:
         labels.append("result:ok")
